@@ -64,7 +64,7 @@ def func_hash(repo, q):
 
 
 # ------------------------------------------------------------------------------------------
-def preamble(ctx):
+def preamble(ctx, drop=()):
     lines = ["(set-logic ALL)", smt.STR_SIG_U, "(declare-sort Rec 0)", "(declare-sort Conv 0)"]
     lines += list(ctx.sort_decls.values())
     if getattr(ctx, "need_join_sorted", False):
@@ -90,13 +90,50 @@ def preamble(ctx):
     lines.append(smt.str_axioms_text())
     lines += ctx.decls
     for a in ctx.assumptions:
+        if ctx.tags.get(id(a)) in drop:
+            continue
         lines.append(f"(assert {a.s})")
     return "\n".join(lines)
 
 
-def query_text(ctx, ob):
-    parts = [preamble(ctx)]
+_TOK = None
+
+
+def _tokens(text):
+    import collections
+    import re as _re
+    return collections.Counter(_re.findall(r"[A-Za-z_][A-Za-z_0-9.]*", _re.sub(r"![0-9]+", "", text)))
+
+
+def slim_hyps(ob):
+    """Goal-directed selection of hypotheses (dropping hypotheses is always sound): keep the small ones and those
+    that look like the goal (same shape over another heap version) — the typical 'this fact survives that
+    heap update' obligation then becomes a small query."""
+    g = _tokens(ob.goal.s)
+    keep = []
+    seen = set()
     for h in ob.hyps:
+        if h.s in seen:
+            continue
+        seen.add(h.s)
+        if len(h.s) < 700:
+            keep.append(h)
+            continue
+        t = _tokens(h.s)
+        inter = sum((t & g).values())
+        union = sum((t | g).values())
+        if union and inter / union >= 0.6:
+            keep.append(h)
+    return keep
+
+
+def query_text(ctx, ob, slim=False, drop=()):
+    parts = [preamble(ctx, drop)]
+    seen = set()
+    for h in (slim_hyps(ob) if slim else ob.hyps):
+        if h.s in seen:
+            continue
+        seen.add(h.s)
         parts.append(f"(assert {h.s})")
     parts.append(f"(assert (not {ob.goal.s}))")
     parts.append("(check-sat)")
@@ -147,7 +184,7 @@ def gen_contract_vcs(q, carve_outs=()):
     ib = ctx.bvar("i", "Int")
     recs_of = ctx.wrap(Select(st0.harr(ctx, "Converter", "records"), cb), ("list", "Record"))
     st0 = st0.assume(ForAll([cb, ib], Implies(And(Select(st0.alloc_arr(ctx, "Converter"), cb), Le(Int(0), ib), Lt(ib, recs_of.n)),
-                                             Select(st0.alloc_arr(ctx, "Record"), recs_of.at(ib).t))))
+                                             Select(st0.alloc_arr(ctx, "Record"), recs_of.at(ib).t)), pats=[[recs_of.at(ib).t]]))
     eng.cur_class = cls
     eng.cur_func = q
     eng.cur_func_node = fnode
@@ -188,7 +225,7 @@ def gen_contract_vcs(q, carve_outs=()):
             if any(repo.subclass(o.exc, n) for n in parts.get("may_raise", ())):
                 allowed.append(TRUE)
             ctx.oblige(f"{where}:raise {o.exc} admitted by a raises-clause", "exceptional-exit", s1.pc, Or(*allowed), where)
-            if parts["pure"] or any(u for *_x, u in parts.get("raises_unchanged", [])):
+            if parts["pure"] or any(u for *_x, u in parts.get("raises_unchanged", [])) or any(repo.subclass(o.exc, n) for n in parts.get("may_unchanged", ())):
                 for fname, cond in eng.frame_condition([], st0, s1):
                     ctx.oblige(f"{where}:rejected call leaves {fname} unchanged", "frame", s1.pc, cond, where)
         else:
@@ -225,7 +262,8 @@ def discharge(ctx, obligations, timeout, order, workers=16):
         if os.environ.get("PYVC_DUMP"):
             os.makedirs(os.environ["PYVC_DUMP"], exist_ok=True)
             import re as _re
-            open(os.path.join(os.environ["PYVC_DUMP"], _re.sub(r"[^A-Za-z0-9_.-]+", "_", ob.label)[:120] + ".smt2"), "w").write(text)
+            open(os.path.join(os.environ["PYVC_DUMP"], _re.sub(r"[^A-Za-z0-9_.-]+", "_", ob.label)[:90] + "-" + hashlib.sha1(ob.label.encode()).hexdigest()[:6] + ".smt2"), "w").write(text)
+            open(os.path.join(os.environ["PYVC_DUMP"], "INDEX.txt"), "a").write(hashlib.sha1(ob.label.encode()).hexdigest()[:6] + " " + ob.label + "\n")
         r = smt.solve(text, timeout, order=order)
         return ob, r
     with ThreadPoolExecutor(max_workers=workers) as ex:
@@ -256,11 +294,19 @@ def prove_item(kind, name, tier, seed, known=()):
         if os.environ.get("PYVC_DUMP"):
             os.makedirs(os.environ["PYVC_DUMP"], exist_ok=True)
             import re as _re
-            open(os.path.join(os.environ["PYVC_DUMP"], _re.sub(r"[^A-Za-z0-9_.-]+", "_", ob.label)[:120] + ".smt2"), "w").write(text)
+            open(os.path.join(os.environ["PYVC_DUMP"], _re.sub(r"[^A-Za-z0-9_.-]+", "_", ob.label)[:90] + "-" + hashlib.sha1(ob.label.encode()).hexdigest()[:6] + ".smt2"), "w").write(text)
+            open(os.path.join(os.environ["PYVC_DUMP"], "INDEX.txt"), "a").write(hashlib.sha1(ob.label.encode()).hexdigest()[:6] + " " + ob.label + "\n")
         if ob.kind == "canary":
             return ob, smt.solve(text, 2, order=("z3-new",))
-        return ob, smt.solve(text, timeout, order=order)
-    with ThreadPoolExecutor(max_workers=int(os.environ.get("PYVC_WORKERS", "6"))) as ex:
+        alts = [("slim", query_text(ctx, ob, slim=True))]
+        if ctx.tags:
+            # the two halves of a comprehension characterisation (element -> source, source -> element) feed each
+            # other's triggers; most obligations need only one of them
+            alts.append(("no-cover", query_text(ctx, ob, drop=("cover",))))
+            alts.append(("no-elem", query_text(ctx, ob, drop=("elem",))))
+        r = smt.solve(text, timeout, order=order, alts=alts)
+        return ob, r
+    with ThreadPoolExecutor(max_workers=int(os.environ.get("PYVC_WORKERS", "4"))) as ex:
         allres = list(ex.map(work, list(ctx.obligations) + canaries))
     results = [(ob, r) for ob, r in allres if ob.kind != "canary"]
     res.n_obligations = len(ctx.obligations) + len(ctx.trivial)
